@@ -1,6 +1,7 @@
 package main
 
 import (
+	"os"
 	"fmt"
 	"go/token"
 	"go/types"
@@ -608,6 +609,10 @@ func (fr *Frame) builtinAppend(args []*Val, argVals []ssa.Value, rt types.Type) 
 		if !tIsString {
 			trow := sel(h, sx("sarr", t.T))
 			vc.assume(fr.reach, fmt.Sprintf("(forall ((j!q Int)) (! (=> (and (<= 0 j!q) (< j!q %s)) (= (select %s (+ %s j!q)) (select %s (+ %s j!q)))) :pattern ((select %s (+ %s j!q)))))", tlen, row, base, trow, sx("soff", t.T), row, base))
+			if os.Getenv("GOVC_APPEND_ABS") != "0" {
+				// the same fact addressed by absolute index (matches reads whose index is not syntactically base + j)
+				vc.assume(fr.reach, fmt.Sprintf("(forall ((j!q Int)) (! (=> (and (<= %s j!q) (< j!q (+ %s %s))) (= (select %s j!q) (select %s (+ %s (- j!q %s))))) :pattern ((select %s j!q))))", base, base, tlen, row, trow, sx("soff", t.T), base, row))
+			}
 		}
 		vc.assume(fr.reach, fmt.Sprintf("(forall ((j!q Int)) (! (=> (or (< j!q %s) (>= j!q (+ %s %s))) (= (select %s j!q) (select %s j!q))) :pattern ((select %s j!q))))", base, base, tlen, row, start, row))
 	}
